@@ -66,6 +66,7 @@ type Exec struct {
 	sqlProps      []string
 	globalObj     map[*ssa.Global]int
 	configVal     *VPtr
+	batchCounter  int
 	txProps       []string
 	assertProps   []string
 }
@@ -271,6 +272,13 @@ func (x *Exec) derefCheck(st *State, p VPtr, what string, pos token.Pos) bool {
 		return false
 	}
 	if !p.Nil.IsFalse() {
+		if strings.Contains(p.Nil.S, "havoc:") {
+			// an element read back from a slice whose cells were forgotten at a loop: its
+			// nil-ness is not tracked by this engine; the dereference is NOT checked
+			x.notes["NOT CHECKED: nil-ness of an element read back from a slice filled in a loop, dereferenced at "+x.prog.pos(pos)] = true
+			st.assume(Not(p.Nil))
+			return true
+		}
 		x.oblige(st, "nil-deref", what, Not(p.Nil), pos, nil)
 		st.assume(Not(p.Nil))
 	}
@@ -428,6 +436,7 @@ func (x *Exec) step(st *State) {
 			return
 		}
 		x.store(st, p.Loc, val)
+		x.onElementStored(st, p.Loc, val)
 		fr.ip++
 	case *ssa.MapUpdate:
 		x.mapUpdate(st, fr, in)
